@@ -355,6 +355,18 @@ AS_WRITTEN = [
     ('c1cn(=O)c2ccccc2n1=O', 'C1=C[N+]([O-])=C2C=CC=CC2=[N+]1[O-]'),
     ('c1cn(=O)ccc1c1ccn(=O)cc1', 'C1=C[N+]([O-])=CC=C1C1=CC=[N+]([O-])C=C1'),
     ('[O-][s+]1cccc1c1ccc[s+]1[O-]', '[O-][S+]1C=CC=C1C1=CC=C[S+]1[O-]'),
+    ('c1c[n-]cn1', 'C1=C[N-]C=N1'),
+    ('[n-]1cncc1', '[N-]1C=NC=C1'),
+    ('c1nc[n-]n1', 'C=1N=C[N-]N=1'),
+    ('c1nnn[n-]1', 'C1=NN=N[N-]1'),
+    ('n1n[n-]cn1', 'N1=N[N-]C=N1'),
+    ('c1ccc2[n-]cnc2c1', 'C1=CC=C2[N-]C=NC2=C1'),
+    ('c1ccccc1c1nnn[n-]1', 'C1=CC=CC=C1C1=NN=N[N-]1'),
+    ('c1nnnn1C', 'C1=NN=NN1C'),
+    ('c1nncnn1', 'C1=NN=CN=N1'),
+    ('c1cccc[c]1 |^1:5|', 'C1=CC=CC=[C]1 |^1:5|'),
+    ('Cc1ccc[c]c1 |^1:5|', 'CC1=CC=C[C]=C1 |^1:5|'),
+    ('c1cc[c]nc1 |^1:3|', 'C1=CC=[C]N=C1 |^1:3|'),
 ]
 FIRST_OPS = ('kekule', 'enumerate_kekule', 'copy+kekule', 'enumerate_kekule, then kekule on the same object')
 
@@ -382,6 +394,11 @@ def first_conversion(acc, text, ktext, perm, op, bad):
         inv = {v: k for k, v in perm.items()}
     else:
         inv = {n: n for n in nums}
+    # hydrogen counts the aromatic form already carries as parsed (undecided ones are None) are part of the molecule: a conversion may not change them
+    for n, a in m.atoms():
+        if a.implicit_hydrogens is not None and a.implicit_hydrogens != ref_h[inv[n]]:
+            bad('aromatic form as parsed carries a hydrogen count that differs from the Kekule text of the same molecule')
+            return None
 
     def judge(k, what):
         if any(b.order not in (1, 2, 3, 8) for *_, b in k.bonds()):
